@@ -244,6 +244,9 @@ def unterminated(r):
     return base + tail + r.choice(["", " END", "\nEND\n"])
 
 
+GATED = set()  # keys of the listed known findings (filled by run)
+
+
 def long_inputs(r, cap):
     """(text, category, depth_ok) - long repetitive inputs, sizes capped at `cap` characters."""
     out = []
@@ -283,6 +286,29 @@ def long_inputs(r, cap):
         out.append(("CLASS EXPRESSION (" + "NOT " * n + "[a] = 1) END", "long:not-chain", True))
         out.append(("CLASS EXPRESSION (" + "-" * 0 + "- " * n + "[a] > 1) END", "long:neg-chain", True))
         out.append(("MAP " + "LAYER CLASS STYLE " * 0 + "".join("LAYER " if i % 2 == 0 else "CLASS " for i in range(0)) + "END", "long:noop", True))
+    # FLAT repetition at nesting depth 1: many operands / parameters / elements / lines of one kind (a filter listing hundreds of
+    # values is ordinary; none of these nests anything)
+    for n in (300, 600, 1500, 3000):
+        ids = [f"[id] = {i}" for i in range(n)]
+        out.append((f"LAYER FILTER ({' OR '.join(ids)}) END", "flat:or-chain", True))
+        out.append((f"CLASS EXPRESSION ({' AND '.join(ids)}) END", "flat:and-chain", True))
+        out.append((f"CLASS EXPRESSION ({' && '.join(ids)}) END", "flat:and-chain-symbols", True))
+        out.append((f"CLASS TEXT ({' + '.join('[a%d]' % i for i in range(n))}) END", "flat:sum-chain", True))
+        out.append((f"CLASS TEXT ({' * '.join(str(i + 1) for i in range(n))}) END", "flat:product-chain", True))
+        out.append((f"CLASS TEXT (f({','.join(str(i) for i in range(n))})) END", "flat:function-parameters", True))
+        out.append(("CLASS EXPRESSION {" + ",".join(f"v{i}" for i in range(n)) + "} END", "flat:list-elements", True))
+        out.append(("LAYER " + " ".join(f'PROCESSING "K{i}=V"' for i in range(n)) + " END", "flat:repeated-keyword-lines", True))
+        out.append(("MAP " + " ".join(f'CONFIG "K{i}" "v"' for i in range(n)) + " END", "flat:config-lines", True))
+        out.append(("STYLE PATTERN " + " ".join(f"{i} {i}" for i in range(n)) + " END END", "flat:pattern-pairs", True))
+        out.append(("MAP PROJECTION " + " ".join(f'"k{i}=v"' for i in range(n)) + " END END", "flat:projection-strings", True))
+        out.append(("LAYER " + " ".join(f'CLASS NAME "c{i}" END' for i in range(n)) + " END", "flat:sibling-blocks", True))
+        out.append(("CLASS # c\n" * 1 + " ".join(f'STYLE SIZE {i} END # s{i}\n' for i in range(n)) + " END", "flat:sibling-blocks-with-comments", True))
+    # the normalised form of such a chain, as dumps writes it: one more pair of parentheses per operand, nested to the left
+    for n in ((100, 300) if "left-nested-expression-quadratic" in GATED else (100, 300, 1000, 3000)):
+        s = "( [id] = 0 )"
+        for i in range(1, n):
+            s = f"( {s} OR ( [id] = {i} ) )"
+        out.append((f"LAYER FILTER {s} END", f"left-nested-chain:{n}", True))
     for n in (300, 2000):
         out.append(("CLASS EXPRESSION " + "(" * n + "[a] = 1" + ")" * n + " END", "long:nested-parens-beyond-bound", False))
     return out
@@ -514,6 +540,7 @@ def _run(ctx):
             res.sample({"category": cat, "input": text})
     # (e) long repetitive inputs
     cap = 200000 if ctx.quick else 1000000
+    GATED.update(ctx.gated)
     longs = long_inputs(r, cap)
     for k, (text, cat, depth_ok) in enumerate(longs):
         if k % ctx.nshards != ctx.shard:
